@@ -14,7 +14,24 @@ PROPS = {}
 
 
 def thorough_extra(prop, seed, results):
-    return []
+    """thorough tier: the replay searcher is run proactively as a cross-check of the SPECIFICATION (not as a decider):
+    if the real code and the pattern-level reference disagree on the unchanged tree while every obligation is discharged,
+    a contract, an assumption or the reference is wrong -> undecided (exit 2), to be investigated."""
+    import os
+    import searcher
+    repo = os.environ.get('VERIF_REPO', '/repo')
+    if prop not in searcher.FAMILIES:
+        return []
+    try:
+        summary, fi = searcher.search(prop, seed, 'thorough', repo)
+    except Exception as ex:
+        return [dict(kind='searcher cross-check', error=repr(ex))]
+    out = dict(kind='searcher cross-check (bounded exploration of the real crate against a pattern-level reference; not counted as proof)', summary=summary)
+    if fi is not None:
+        if all(r.status == 'ok' for r in results):
+            out['undecided'] = 'specification cross-check: real code and reference model disagree although all obligations are discharged: %s' % (fi['disagreement'][:300])
+        out['failing_input'] = fi
+    return [out]
 
 
 HOOK_COMMITS = []
@@ -62,13 +79,13 @@ reg('C10', ['u_iter'],
 reg('C07', ['u_dfa', 'u_mode', 'u_iter'],
     'spans non-empty (l >= 1), start/end are byte offsets of char indices of the input (boff), start >= previous end (cursor monotone), Some(m) => cursor strictly advances, None => cursor at end and stays there (no_more); absence of panics while scanning = every index/unwrap/overflow/slice-boundary obligation of the functions under contract',
     [WF, CLS, ITER, UTF8, 'building (establishing wf, not panicking) is NOT decided: producer side is C02/C03 territory'])
-reg('C09', ['u_iter'],
+reg('C09', ['u_iter', 'u_api'],
     'position(o): line = 1 + number of line breaks before o and column = o - line start + 1 whenever all line starts up to o are recorded (complete_upto), or the permitted same-line alternative right after a line break; next_match/advance_to record every line start of the consumed region; set_offset recomputes last_char; merge keeps line_offsets sorted, duplicate free, true line starts',
     [ITER, UTF8, 'WithPositions::next itself (generic over the inner iterator) is not under contract; its two calls are position(m.start()) and position(m.end()) after next()'])
 reg('C11', ['u_mode', 'u_iter'],
     'peek_n: final state equals old state on every field that determines later results (char_indices, offset, line_offsets, last_char, last_position, mode; scanner config same up to scratch buffers); outcome classified exactly: Matches <=> n tokens none switching; MatchesReachedModeSwitch <=> last token has a transition to the reported mode (not entered); MatchesReachedEnd <=> 0 < k < n tokens then no_more; NotFound <=> no token at all; the tokens are toks_from = the same is_next_tok chain next() is specified by',
     [WF, CLS, ITER, UTF8])
-reg('C12', ['u_dfa', 'u_mode', 'u_iter'],
+reg('C12', ['u_dfa', 'u_mode', 'u_iter', 'u_api'],
     'every operation contract gives result and new state as a function of (old abstract state, arguments, immutable configuration): scratch buffers are not part of DfaCore and find_from clears them (its postcondition does not mention their old value); FindMatchesImpl::new yields (input, cursor 0, mode 0) for any scanner value, whatever mode it was in',
     [WF, CLS, ITER, 'Scanner::find_iter hands a clone to the iterator: derived Clone copies (E4 assumption); two iterators share only Arc<..> data that is immutable through & (Rust aliasing rules, type-level argument)'])
 
